@@ -207,17 +207,18 @@ func mergeStringAuditInfoMaps(ms ...map[string]*scipipe.AuditInfo) (merged map[s
 
 func sortAuditInfosByStartTime(auditInfosByID map[string]*scipipe.AuditInfo) []*scipipe.AuditInfo {
 	sorted := []*scipipe.AuditInfo{}
-
-	auditInfosByStartTime := map[time.Time]*scipipe.AuditInfo{}
-	startTimes := []time.Time{}
 	for _, ai := range auditInfosByID {
-		auditInfosByStartTime[ai.StartTime] = ai
-		startTimes = append(startTimes, ai.StartTime)
+		sorted = append(sorted, ai)
 	}
-	sort.Slice(startTimes, func(i, j int) bool { return startTimes[i].Before(startTimes[j]) })
-	for _, t := range startTimes {
-		sorted = append(sorted, auditInfosByStartTime[t])
-	}
+	// Several audit infos can have the same start time (e.g. the zero time
+	// of files that were not produced by any task), so sort the audit infos
+	// themselves, with the ID as tie-breaker, rather than keying them by time
+	sort.Slice(sorted, func(i, j int) bool {
+		if sorted[i].StartTime.Equal(sorted[j].StartTime) {
+			return sorted[i].ID < sorted[j].ID
+		}
+		return sorted[i].StartTime.Before(sorted[j].StartTime)
+	})
 	return sorted
 }
 
